@@ -4,7 +4,7 @@
     [DSub s] = subset encoding, [DVec x] = integer-count / binary-indicator / real-contribution encoding;
     [res_eq] = same shape and equal rationals; norms are represented by their squares). *)
 From Coq Require Import PrimFloat Permutation.
-From PV Require Import Lib.Common Lib.FloatK Model.C05_Latent Model.C05_Factory Proofs.C05_Latent Proofs.C05_Avail Proofs.C05_Factory.
+From PV Require Import Lib.Common Lib.FloatK Model.C05_Latent Model.C05_Factory Proofs.C05_Latent Proofs.C05_Avail Proofs.C05_Factory Gen.C05_Kernel Proofs.C05_Kernel Proofs.C05_Session.
 Local Open Scope Q_scope.
 
 (** Every family's subset formula is its contribution-vector formula ("the definition") evaluated at
@@ -166,6 +166,133 @@ Theorem C05_uc_weighted_is_not_plain_mean :
 Proof. exact uc_weighted_is_not_plain. Qed.
 Print Assumptions C05_uc_weighted_is_not_plain_mean.
 
+(** The kernel expressions of the CURRENT source (Gen/C05_Kernel.v is regenerated from pybrops/breed/prot/sel/prob/*.py and
+    pybrops/model/embvmat on every run by harness/translate/c05_kernel.py) are the expressions the model is built from:
+    the guard and the normalisation of all 39 Real/Integer/Binary latent functions, the sign and the 1/k coefficient of the
+    linear, quadratic and family bodies, the order of the latent blocks, the binary64 frequency quotient and the threshold /
+    flag algebra of PAU and MOGS including which helper the tfreq setter stores in which flag, the max-type coefficients,
+    evalfn (which weights multiply which transformation of (x, latent), order of the triple), the usefulness criterion and the
+    accumulate-and-divide loop of the expected maximum breeding value. *)
+Theorem C05_kernel_is_model :
+  Forall (fun f : Q -> Q => forall t, f t = guard_sum t) k_guard_all /\
+  Forall (fun f : Q -> Q -> Q => forall s xi, f s xi = (1 / s) * xi) k_contrib_all /\
+  Forall (fun f : Q -> Q -> Q => forall k c, f k c = (- (1 / k)) * c) k_linsub_all /\
+  Forall (fun f : Q -> Q => forall d, f d = - d) k_linvec_all /\
+  Forall (fun f : Q -> Q -> Q => forall k r, f k r = (1 / k) * r) k_cx_all /\
+  Forall (fun f : Q -> Q => forall d, f d = - (1 - d)) k_meh_all /\
+  Forall (fun f : Q -> Q => forall b, f b = - b) k_famneg_all /\
+  (length k_guard_all = 24 /\ length k_contrib_all = 39 /\ length k_linsub_all = 9 /\ length k_linvec_all = 27)%nat /\
+  (forall pf tfv, k_pau_pipeline pf tfv = pau_unavail_code pf tfv) /\
+  (forall pf tfv, k_mogs_pipeline pf tfv = mogs_unavail_code pf tfv) /\
+  (forall pl G s j, pfreq_f pl G s j = k_pfreq__pau (f_of_Z (acount G s j)) (f_of_Z (k_pfreq_den__pau pl (Z.of_nat (length s)))) /\
+                    pfreq_f pl G s j = k_pfreq__mogs (f_of_Z (acount G s j)) (f_of_Z (k_pfreq_den__mogs pl (Z.of_nat (length s))))) /\
+  (forall c pl k, k_pfreq__pafd (f_of_Z c) (f_of_Z (k_pfreq_den__pafd pl k)) = pfreq_of_count c (pl * k)) /\
+  (forall x, k_pau_set_tminor x = t_minor x /\ k_pau_set_thet x = t_het x /\ k_pau_set_tmajor x = t_major x /\
+             k_pafd_set_tminor x = t_minor x /\ k_pafd_set_thet x = t_het x /\ k_pafd_set_tmajor x = t_major x) /\
+  (forall n t M ids s, fam_subset n t M ids s = k_cat__FamilyEstimatedBreedingValueSubsetSelectionProblem Q (lin_subset t M s)
+        (map k_famneg__FamilyEstimatedBreedingValueSubsetSelectionProblem (bincount (nfam ids) (famix ids) (famwt_subset n s)))) /\
+  (forall a (l : list Q), k_cat__OptimalContributionSubsetSelectionProblem lv [Sq a] (map Ex l) = Sq a :: map Ex l) /\
+  (forall a b : list Q, k_cat__MultiObjectiveGenomicSubsetSelectionProblem Q a b = a ++ b) /\
+  (forall H nb nt s, opv_subset H nb nt s = map (fun q => k_opv (nq (length H)) (sumf (fun b => maxl (flat_map (fun Hp => map (fun i => hget Hp i b q) s) H)) (seq 0 nb))) (seq 0 nt)) /\
+  (forall H nb nt nbest s, gb_subset H nb nt nbest s = map (fun q => k_gb (nq (length H)) (nq nbest)
+      (sumf (fun b => qsum (lastn nbest (sortQ (map (fun i => maxl (map (fun Hp => hget Hp i b q) H)) s)))) (seq 0 nb))) (seq 0 nt)) /\
+  (forall To Ti Te wo wi we x l, k_evalfn To Ti Te wo wi we x l = evalfn To Ti Te wo wi we x l) /\
+  (forall bv epgc si sigma t parents, uc_row bv epgc si sigma t parents = map (fun q => k_uc (uc_mean bv epgc parents q) si (nth q sigma 0)) (seq 0 t)) /\
+  (forall bv epgc parents q, uc_mean bv epgc parents q == k_uc_pmean epgc (map (fun i => mget bv i q) parents)) /\
+  (forall reps q, k_embv_avg (fold_left k_embv_acc (map (fun bvs => colmax bvs q) reps) 0) (nq (length reps)) == embv_entry reps q).
+Proof. exact kernel_is_model. Qed.
+Print Assumptions C05_kernel_is_model.
+(** the sel/prob/trans.py bodies are the model's transformations *)
+Theorem C05_kernel_transformations : forall x l w d,
+  apply_trans TId x l = k_trans_identity x l /\ apply_trans TEmpty x l = k_trans_empty x l /\
+  Forall2 Qeq (apply_trans TSum x l) (k_trans_sum x l) /\ Forall2 Qeq (apply_trans (TDot w) x l) (k_trans_dot x l w) /\
+  Forall2 Qeq (apply_trans (TDecnSum d) x l) (k_trans_decnvec_sum_eq x l d).
+Proof. exact k_trans_model. Qed.
+Print Assumptions C05_kernel_transformations.
+(** the availability theorems restated about the GENERATED definitions: the threshold tests of the current source on the
+    frequency quotient of the current source decide exactly the count-based definition, for every allele count out of at
+    most 2^53 chromosome copies and every target (PAU: every target that is a frequency) *)
+Theorem C05_kernel_availability : forall (c pl k : Z) (tfv : Q), (0 <= c <= k_pfreq_den__pau pl k)%Z -> (0 < k_pfreq_den__pau pl k <= 2^53)%Z ->
+  k_mogs_pipeline (k_pfreq__mogs (f_of_Z c) (f_of_Z (k_pfreq_den__mogs pl k))) tfv = unavail_def c (pl * k) tfv /\
+  (t_unit tfv = true -> k_pau_pipeline (k_pfreq__pau (f_of_Z c) (f_of_Z (k_pfreq_den__pau pl k))) tfv = unavail_def c (pl * k) tfv).
+Proof. exact kernel_availability. Qed.
+Print Assumptions C05_kernel_availability.
+(** scale invariance restated about the generated guard / normalisation of every guarded class, and the side of the boundary *)
+Theorem C05_kernel_scale_invariant : forall g c a x, In g k_guard_all -> In c k_contrib_all -> 0 < a ->
+  guard_eps <= Qabs' (qsum x) -> guard_eps <= Qabs' (qsum (map (Qmult a) x)) ->
+  Forall2 Qeq (map (c (g (qsum (map (Qmult a) x)))) (map (Qmult a) x)) (map (c (g (qsum x))) x).
+Proof. exact kernel_scale_invariant. Qed.
+Print Assumptions C05_kernel_scale_invariant.
+Theorem C05_kernel_guard_boundary : forall g, In g k_guard_all -> g guard_eps = guard_eps /\ g (- guard_eps) = - guard_eps /\ g 0 = 1.
+Proof. exact kernel_guard_boundary. Qed.
+Print Assumptions C05_kernel_guard_boundary.
+(** expected maximum breeding value matrix: the replicate buffer of the current source has exactly as many rows as replicates
+    are drawn for the taxon (nrep[i]), every replicate has nprogeny[i] progeny of parent i; with stale rows in the buffer the
+    buffer mean is not the replicate mean *)
+Theorem C05_kernel_embv_buffer : forall nrep_i nrep_max np_i np_max i ntaxa : Z,
+  k_embvmat_rows nrep_i nrep_max np_i np_max i ntaxa = k_embvmat_loop nrep_i nrep_max np_i np_max i ntaxa /\
+  k_embvmat_loop nrep_i nrep_max np_i np_max i ntaxa = nrep_i /\
+  k_embvmat_nprog nrep_i nrep_max np_i np_max i ntaxa = np_i /\
+  k_embvmat_parent nrep_i nrep_max np_i np_max i ntaxa = i.
+Proof. exact embvmat_kernel. Qed.
+Print Assumptions C05_kernel_embv_buffer.
+Theorem C05_embv_stale_buffer_refuted : ~ qsum ([1] ++ [3]) / nq (length ([1] ++ [3])) == qsum [1] / nq (length [1 : Q]).
+Proof. exact buffer_mean_stale_differs. Qed.
+Print Assumptions C05_embv_stale_buffer_refuted.
+(** the slice of the genotype builder: [st:sp] of the source are the last nbestfndr sorted members *)
+Theorem C05_kernel_gb_slice : forall (l : list Q) nbest,
+  lastn nbest l = firstn (Z.to_nat (k_gb_sp (Z.of_nat (length l)) (Z.of_nat nbest)) - Z.to_nat (k_gb_st (Z.of_nat (length l)) (Z.of_nat nbest)))
+                         (skipn (Z.to_nat (k_gb_st (Z.of_nat (length l)) (Z.of_nat nbest))) l).
+Proof. exact (@k_gb_slice Q). Qed.
+Print Assumptions C05_kernel_gb_slice.
+
+(** Sessions: a problem object that is re-used — data re-assigned through its setters between calls — answers every call
+    from the data it holds at that call: after ANY history of assignments and calls, the next call returns the latent
+    vector of the last assignment, and two histories that leave the same data give the same answer. *)
+Theorem C05_session_call_is_function_of_current_data : forall n fd0 ops d,
+  snd (run n fd0 (ops ++ [OCall d])) = snd (run n fd0 ops) ++ [latent n (last_set fd0 ops) d].
+Proof. exact session_call. Qed.
+Print Assumptions C05_session_call_is_function_of_current_data.
+Theorem C05_session_history_irrelevant : forall n fd0 fd0' ops ops' d, last_set fd0 ops = last_set fd0' ops' ->
+  last (snd (run n fd0 (ops ++ [OCall d]))) None = last (snd (run n fd0' (ops' ++ [OCall d]))) None.
+Proof. exact session_history_irrelevant. Qed.
+Print Assumptions C05_session_history_irrelevant.
+(** Scale law: the linear criteria (EBV, GEBV, wGEBV, gwGEBV, EMBV, random, UC, OHV) are homogeneous of degree one in their
+    table — for every factor a (not only positive ones), every decision encoding, guarded or not. *)
+Theorem C05_linear_scale_law : forall n g t M a d,
+  res_eq (latent n (FLin g t (scaleM a M)) d) (omap (map (lv_scale a)) (latent n (FLin g t M) d)).
+Proof. exact latent_lin_scale. Qed.
+Print Assumptions C05_linear_scale_law.
+(** Expected maximum breeding value: if every simulated progeny of a line has breeding value b for a trait (a fully homozygous
+    line: every doubled haploid is the line itself), the mean over the replicates of the per-replicate maxima is b, for every
+    number of replicates and progeny. *)
+Theorem C05_embv_homozygous_is_bv : forall reps q b, reps <> [] ->
+  (forall bvs, In bvs reps -> bvs <> [] /\ forall r, In r bvs -> nth q r 0 == b) -> embv_entry reps q == b.
+Proof. exact embv_entry_const. Qed.
+Print Assumptions C05_embv_homozygous_is_bv.
+
+(** Finding C05-tfreq-inplace-stale-flags: the tfreq setters of the PAU / MOGS mixins store the flags derived from the targets;
+    an in-place update of the target array the problem holds is seen by the distance term but not by the availability term
+    ([pau_stale] / [mogs_stale] model the code: flags of the targets at the setter, distances to the current targets) ... *)
+Theorem C05_tfreq_inplace_stale_flags_refuted : exists pl G w tf_set tf_now p t s,
+  mogs_stale pl G w tf_set tf_now p t s <> mogs_pau_code pl G w tf_now p t s ++ pafd pl G w tf_now p t s /\
+  pau_stale pl G w tf_set tf_now p t s <> pau_code pl G w tf_now p t s.
+Proof. exact tfreq_inplace_stale_refuted. Qed.
+Print Assumptions C05_tfreq_inplace_stale_flags_refuted.
+(** ... exactly when a target changes its class: if every target stays in its class the result is the definition on the
+    current targets *)
+Theorem C05_tfreq_inplace_mogs_partial : forall pl G w tf_set tf_now p t s,
+  (forall j q, (j < p)%nat -> (q < t)%nat -> Qle_bool (mget tf_set j q) 0 = Qle_bool (mget tf_now j q) 0 /\ Qle_bool 1 (mget tf_set j q) = Qle_bool 1 (mget tf_now j q)) ->
+  mogs_stale pl G w tf_set tf_now p t s = mogs_pau_code pl G w tf_now p t s ++ pafd pl G w tf_now p t s.
+Proof. exact mogs_stale_partial. Qed.
+Print Assumptions C05_tfreq_inplace_mogs_partial.
+Theorem C05_tfreq_inplace_pau_partial : forall pl G w tf_set tf_now p t s,
+  (forall j q, (j < p)%nat -> (q < t)%nat -> t_minor (mget tf_set j q) = t_minor (mget tf_now j q) /\ t_het (mget tf_set j q) = t_het (mget tf_now j q)
+                                            /\ t_major (mget tf_set j q) = t_major (mget tf_now j q)) ->
+  pau_stale pl G w tf_set tf_now p t s = pau_code pl G w tf_now p t s.
+Proof. exact pau_stale_partial. Qed.
+Print Assumptions C05_tfreq_inplace_pau_partial.
+
 (** non-vacuity: concrete values meeting the hypotheses used above *)
 Example C05_hyps_satisfiable :
   has_vec (FOcs 1 [[1]; [2]; [3]] [[1; 1#2; 0]; [0; 1; 1#4]; [0; 0; 1]]) = true /\ in_range 3 [2; 0]%nat /\ [2; 0]%nat <> [] /\ NoDup [2; 0]%nat
@@ -194,3 +321,30 @@ Proof.
   split; [reflexivity|]. split; [reflexivity|]. split; [apply uniform_total; lia|].
   split; [intros x [<-|[<-|[]]]; reflexivity|]. vm_compute. repeat constructor.
 Qed.
+
+Example C05_kernel_hyps_satisfiable :
+  In k_guard__OptimalContributionRealSelectionProblem k_guard_all /\ In k_contrib__OptimalContributionRealSelectionProblem k_contrib_all
+  /\ guard_eps <= Qabs' (qsum [1#4; 1#2]) /\ guard_eps <= Qabs' (qsum (map (Qmult 3) [1#4; 1#2]))
+  /\ (0 <= 49 <= k_pfreq_den__pau 1 49)%Z /\ (0 < k_pfreq_den__pau 1 49 <= 2^53)%Z /\ t_unit (1#2) = true
+  /\ k_pau_pipeline (k_pfreq__pau (f_of_Z 49) (f_of_Z (k_pfreq_den__pau 1 49))) (1#2) = true.
+Proof.
+  split; [unfold k_guard_all; cbn; tauto|]. split; [unfold k_contrib_all; cbn; tauto|].
+  split; [apply Qle_bool_iff; vm_compute; reflexivity|]. split; [apply Qle_bool_iff; vm_compute; reflexivity|].
+  split; [vm_compute; split; discriminate|]. split; [vm_compute; split; [reflexivity | discriminate]|]. split; vm_compute; reflexivity.
+Qed.
+
+Example C05_session_hyps_satisfiable :
+  last_set (FMgr [[1]]) [OSet (FMgr [[2]]); OCall (DSub [0%nat])] = last_set (FMgr [[3]]) [OCall (DSub [0%nat]); OSet (FMgr [[2]])]
+  /\ [[[3; 1]; [3; 0]]; [[3; 2]]] <> [] /\ (forall bvs, In bvs [[[3; 1]; [3; 0]]; [[3; 2]]] -> bvs <> [] /\ forall r, In r bvs -> nth 0 r 0 == 3)
+  /\ embv_entry [[[3; 1]; [3; 0]]; [[3; 2]]] 1 == 3 # 2.
+Proof.
+  split; [reflexivity|]. split; [discriminate|]. split.
+  - intros bvs [<-|[<-|[]]]; (split; [discriminate|]); intros r H; cbn in H; intuition (subst; reflexivity).
+  - vm_compute. reflexivity.
+Qed.
+
+Example C05_tfreq_inplace_hyps_satisfiable :
+  (forall j q, (j < 1)%nat -> (q < 1)%nat -> Qle_bool (mget [[1#2]] j q) 0 = Qle_bool (mget [[1#4]] j q) 0 /\ Qle_bool 1 (mget [[1#2]] j q) = Qle_bool 1 (mget [[1#4]] j q)) /\
+  (forall j q, (j < 1)%nat -> (q < 1)%nat -> t_minor (mget [[1#2]] j q) = t_minor (mget [[1#4]] j q) /\ t_het (mget [[1#2]] j q) = t_het (mget [[1#4]] j q)
+                                            /\ t_major (mget [[1#2]] j q) = t_major (mget [[1#4]] j q)).
+Proof. split; intros j q Hj Hq; (destruct j; [|lia]); (destruct q; [|lia]); repeat split; reflexivity. Qed.
